@@ -159,9 +159,21 @@ func checkC06(w *SketchWorld, slot int) (fails []mc.Fail) {
 		}
 	}
 	// a receiver that held this very content, was cleared and is reused as the
-	// target of decoding (the pattern the decoder's documentation recommends)
+	// target of decoding (the pattern the decoder's documentation recommends),
+	// and a copy of such a cleared receiver
 	encSelf := encodeOf(q, false)
 	for _, t := range codecTargets {
+		rcc := rebuild(md, t, sl.Exact)
+		rcc.Q().Clear()
+		rcc = rcc.CopyOf()
+		if err := rcc.Q().DecodeAndMergeWith(encSelf); err != nil {
+			fail("C06.round-trip", "decoding into a copy of a cleared %s receiver failed: %v", t, err)
+			return
+		}
+		if got, want := SketchContent(rcc.Q()), expectedContent(t, md); got != want {
+			fail("C06.round-trip", "decoded into a copy of a cleared %s receiver that held the same content\n  got:  %s\n  want: %s", t, got, want)
+			return
+		}
 		rc := rebuild(md, t, sl.Exact)
 		rc.Q().Clear()
 		if err := rc.Q().DecodeAndMergeWith(encSelf); err != nil {
@@ -173,6 +185,44 @@ func checkC06(w *SketchWorld, slot int) (fails []mc.Fail) {
 			return
 		}
 		mc.Count("decodes", 1)
+	}
+	// the encoding of the exact-statistics variant read by the plain decoder: the
+	// statistics blocks are skipped, the bins are the same
+	if sl.Exact {
+		for _, t := range codecTargets {
+			dec, err := ddsketch.DecodeDDSketch(encSelf, t.Provider(), nil)
+			if err != nil {
+				fail("C06.round-trip", "the plain decoder refused the encoding of the exact-statistics variant (%s stores): %v", t, err)
+				return
+			}
+			if got, want := SketchContent(dec), expectedContent(t, md); got != want {
+				fail("C06.round-trip", "the plain decoder read other bins from the encoding of the exact-statistics variant (%s stores)\n  got:  %s\n  want: %s", t, got, want)
+				return
+			}
+		}
+	}
+	// nothing is remembered between decodes: a sketch on a mapping of the same kind
+	// and base with another offset, decoded in between, comes back with its own
+	// mapping, and so does this one afterwards
+	{
+		g, o := mapParams(md.Map)
+		osp := MapSpec{Kind: md.Spec.Kind, Gamma: g, Offset: o + 1}
+		if md.Spec.Gamma == 0 {
+			osp.Kind = md.Spec.Kind
+		}
+		om := osp.New()
+		other := NewSkSlot(om, sl.Store, sl.Exact)
+		other.Q().Add(om.Value(om.Index(1) + 3))
+		d1, err1 := DecodeSlot(encodeOf(other.Q(), false), sl.Store, sl.Exact, nil)
+		d2, err2 := DecodeSlot(encSelf, sl.Store, sl.Exact, nil)
+		if err1 != nil || err2 != nil {
+			fail("C06.round-trip", "decoding a sketch whose mapping differs only by its offset, then this one again, failed: %v / %v", err1, err2)
+			return
+		}
+		if !proto.Equal(d1.Mapping().ToProto(), om.ToProto()) || !proto.Equal(d2.Mapping().ToProto(), md.Map.ToProto()) {
+			fail("C06.round-trip", "decoded one after the other, a sketch on %v and this one on %v came back with mappings %v and %v", om.ToProto(), md.Map.ToProto(), d1.Mapping().ToProto(), d2.Mapping().ToProto())
+			return
+		}
 	}
 	// composition with merging, against the other slot of the world
 	if len(w.S) < 2 {
